@@ -116,16 +116,16 @@ Section Seq.
     assert (Keep : LBS (B + max_batch_num) ms).
     { eapply all_recs_mono; [|exact A]. intros v; apply LB_mono. unfold max_batch_num; lia. }
     assert (LL : forall key (f : xr lcoll -> xr lcoll * reply),
-               (forall v, RepL compact clock (x_r v) /\ LB B (x_r v) -> LB (B + max_batch_num) (x_r (fst (f v)))) ->
+               (forall v, (RepL compact clock (x_r v) /\ InSpace (x_r v)) /\ LB B (x_r v) -> LB (B + max_batch_num) (x_r (fst (f v)))) ->
                LBS (B + max_batch_num) (fst (let '(m, r) := aupd (x0 empty_lcoll) key f (m_list ms) in
                              (Build_mstate (m_hash ms) (m_set ms) (m_zset ms) m (m_kv ms), r)))).
     { intros key f Hf.
-      pose proof (aupd_recs (fun v => RepL compact clock (x_r v) /\ LB B (x_r v)) (XP (LB (B + max_batch_num))) (x0 empty_lcoll) key
+      pose proof (aupd_recs (fun v => (RepL compact clock (x_r v) /\ InSpace (x_r v)) /\ LB B (x_r v)) (XP (LB (B + max_batch_num))) (x0 empty_lcoll) key
                             f (m_list ms)) as H.
       destruct (aupd (x0 empty_lcoll) key f (m_list ms)) as [m r]. cbn [fst m_list] in *.
       apply H.
       + intros v [_ Hv]. eapply LB_mono; [|exact Hv]. unfold max_batch_num; lia.
-      + split; [apply RepL_empty|apply LB_empty].
+      + split; [split; [apply RepL_empty|apply InSpace_empty]|apply LB_empty].
       + exact Hf.
       + intros k v Hin. split; [apply (rs_list _ _ _ Rs k v Hin)|apply (A k v Hin)]. }
     destruct c; cbn [map_step]; try exact Keep;
@@ -138,25 +138,25 @@ Section Seq.
       apply LL. intros v [_ Hv]. rewrite xpersist_r. eapply LB_mono; [|exact Hv]. unfold max_batch_num; lia.
     - destruct (negb (key_ok key)); exact Keep.
     - apply LL. intros v Hv.
-      assert (Hf : forall r, RepL compact clock r /\ LB B r -> LB (B + max_batch_num) (fst (MapL.lstep compact ts key c r)))
-        by (intros r [Rr Br]; apply (lstep_LB compact clock); auto).
-      assert (Mo : forall r, RepL compact clock r /\ LB B r -> LB (B + max_batch_num) r)
+      assert (Hf : forall r, (RepL compact clock r /\ InSpace r) /\ LB B r -> LB (B + max_batch_num) (fst (MapL.lstep compact ts key c r)))
+        by (intros r [[Rr Sr] Br]; apply (lstep_LB compact clock); auto).
+      assert (Mo : forall r, (RepL compact clock r /\ InSpace r) /\ LB B r -> LB (B + max_batch_num) r)
         by (intros r [_ Br]; eapply LB_mono; [|exact Br]; unfold max_batch_num; lia).
       destruct (l_renews c).
-      + apply (xrenew_inv l_exists forget_l compact (fun r => RepL compact clock r /\ LB B r) (LB (B + max_batch_num))); auto.
-        intros Cc r [Rr _]. split; [apply forget_l_rep; assumption|apply LB_forget].
-      + apply (xguard_inv l_exists compact (fun r => RepL compact clock r /\ LB B r) (LB (B + max_batch_num))); auto.
+      + apply (xrenew_inv l_exists forget_l compact (fun r => (RepL compact clock r /\ InSpace r) /\ LB B r) (LB (B + max_batch_num))); auto.
+        intros Cc r [[Rr _] _]. split; [split; [apply forget_l_rep; assumption|intros m Hm; discriminate]|apply LB_forget].
+      + apply (xguard_inv l_exists compact (fun r => (RepL compact clock r /\ InSpace r) /\ LB B r) (LB (B + max_batch_num))); auto.
     - destruct (MapK.kstep compact ts c (m_kv ms)). exact Keep.
   Qed.
 
   (* a list command refines (within the bound a push has room) *)
   Lemma lstep_fref clock ts key c bnd : 0 <= clock < ts -> 0 <= bnd -> bnd + max_batch_num < seq_room ->
-    fref (fun l => RepL compact clock l /\ LB bnd l) (RepL compact ts) (fun l a => abs_l l = a)
+    fref (fun l => (RepL compact clock l /\ InSpace l) /\ LB bnd l) (fun l => RepL compact ts l /\ InSpace l) (fun l a => abs_l l = a)
          (MapL.lstep compact ts key c) (SpecL.lstep key c).
   Proof.
-    intros L PB Room l a [RL HB] AB. subst a.
-    split; [|split]; [| |apply (lstep_rep compact clock); auto]; destruct c.
-    1, 7: apply (lpush_ref compact clock); auto; intros TM;
+    intros L PB Room l a [[RL IS] HB] AB. subst a.
+    split; [|split]; [| |split; [apply (lstep_rep compact clock); auto|apply (lstep_space compact clock); auto]]; destruct c.
+    1, 8: apply (lpush_ref compact clock); auto; intros TM;
       (destruct vs as [|x0' r0] eqn:EV;
        [unfold push_in_bounds, push_last, seq_room in *; cbn [length]; change (Z.of_nat 0) with 0;
         unfold l_size, l_head, l_tail; destruct (l_meta l) as [m0|] eqn:E0;
@@ -168,6 +168,7 @@ Section Seq.
     all: try (apply (lset_ref compact clock); auto).
     all: try (apply (ltrim_ref compact clock); auto).
     all: try (apply (lclear_ref compact clock); auto).
+    all: try (rewrite (lfixkey_noop compact clock ts key l RL IS); reflexivity).
     all: reflexivity.
   Qed.
 
@@ -184,7 +185,8 @@ Section Seq.
       - apply (zremrangebyscore_ref compact clock); auto.
       - apply (zremrangebylex_ref compact clock); auto.
       - apply (zclear_ref compact clock); auto.
-      - split; [reflexivity|exact SZ]. }
+      - split; [reflexivity|exact SZ].
+      - unfold zref. rewrite (zfixkey_noop compact clock ts key z RZ'). split; [reflexivity|exact SZ]. }
     destruct W as [W1 W2]. split; [exact W1|split; [exact W2|apply (zstep_rep compact clock); auto]].
   Qed.
 
@@ -210,10 +212,11 @@ Section Seq.
                              simx simz (alook (x0 empty_zcoll) key (m_zset ms)) (alook (x0 []) key (s_zset ss))).
     { intros key. split; [apply (alook_rec (XP (RepZ compact clock))); [apply RepZ_empty|exact RZs]
                          |apply rel2_alook; [apply simx_empty, (@sim_empty score)|exact Sz]]. }
-    assert (LLs : forall key, (RepL compact clock (x_r (alook (x0 empty_lcoll) key (m_list ms))) /\
+    assert (LLs : forall key, ((RepL compact clock (x_r (alook (x0 empty_lcoll) key (m_list ms))) /\
+                                InSpace (x_r (alook (x0 empty_lcoll) key (m_list ms)))) /\
                                LB bnd (x_r (alook (x0 empty_lcoll) key (m_list ms)))) /\
                              simx (fun l a => abs_l l = a) (alook (x0 empty_lcoll) key (m_list ms)) (alook (x0 []) key (s_list ss))).
-    { intros key. split; [split; [apply (alook_rec (XP (RepL compact clock))); [apply RepL_empty|exact RLs]
+    { intros key. split; [split; [apply (alook_rec (XP (fun l => RepL compact clock l /\ InSpace l))); [split; [apply RepL_empty|apply InSpace_empty]|exact RLs]
                                  |apply (alook_rec (XP (LB bnd))); [apply LB_empty|exact LBm]]
                          |apply rel2_alook; [apply simx_empty; reflexivity|exact Sl]]. }
     (* writes of one record *)
@@ -274,23 +277,25 @@ Section Seq.
     (* the Ref hypotheses *)
     assert (PQc : forall V (r : coll V), RepC compact clock r -> RepC compact ts r) by (intros V r; apply RepC_mono; lia).
     assert (PQz : forall r, RepZ compact clock r -> RepZ compact ts r) by (intros r; apply RepZ_mono; lia).
-    assert (PQl : forall r, RepL compact clock r /\ LB bnd r -> RepL compact ts r) by (intros r [Rr _]; eapply RepL_mono; [|exact Rr]; lia).
+    assert (PQl : forall r, (RepL compact clock r /\ InSpace r) /\ LB bnd r -> RepL compact ts r /\ InSpace r)
+      by (intros r [[Rr Sr] _]; split; [eapply RepL_mono; [|exact Rr]; lia|exact Sr]).
     assert (Fc : forall V, compact = true -> forall r : coll V, RepC compact clock r -> RepC compact clock (forget_c r))
       by (intros V Cc r; apply forget_c_rep; exact Cc).
     assert (Fz : compact = true -> forall r, RepZ compact clock r -> RepZ compact clock (forget_z r))
       by (intros Cc r; apply forget_z_rep; exact Cc).
-    assert (Fl : compact = true -> forall r, RepL compact clock r /\ LB bnd r -> RepL compact clock (forget_l r) /\ LB bnd (forget_l r))
-      by (intros Cc r [Rr _]; split; [apply forget_l_rep; assumption|apply LB_forget]).
+    assert (Fl : compact = true -> forall r, (RepL compact clock r /\ InSpace r) /\ LB bnd r ->
+                 (RepL compact clock (forget_l r) /\ InSpace (forget_l r)) /\ LB bnd (forget_l r))
+      by (intros Cc r [[Rr _] _]; split; [split; [apply forget_l_rep; assumption|intros m Hm; discriminate]|apply LB_forget]).
     assert (SFc : forall V, compact = true -> forall r : coll V, RepC compact clock r -> sim (forget_c r) (@nil (bytes * V)))
       by (intros V _ r _; apply forget_c_sim).
     assert (SFz : compact = true -> forall r, RepZ compact clock r -> simz (forget_z r) [])
       by (intros _ r _; apply (@forget_c_sim score)).
-    assert (SFl : compact = true -> forall r, RepL compact clock r /\ LB bnd r -> abs_l (forget_l r) = [])
+    assert (SFl : compact = true -> forall r, (RepL compact clock r /\ InSpace r) /\ LB bnd r -> abs_l (forget_l r) = [])
       by (intros _ r _; apply abs_none; reflexivity).
     assert (SLc : forall V (r : coll V) a, RepC compact ts r -> sim r a -> exists_coll r = nonempty a)
       by (intros V r a; apply live_c_sim).
     assert (SLz : forall r a, RepZ compact ts r -> simz r a -> live_z r = nonempty a) by (intros r a; apply live_z_sim).
-    assert (SLl : forall r a, RepL compact ts r -> abs_l r = a -> l_exists r = nonempty a) by (intros r a; apply live_l_abs).
+    assert (SLl : forall r a, RepL compact ts r /\ InSpace r -> abs_l r = a -> l_exists r = nonempty a) by (intros r a [Rr _]; apply (live_l_abs ts); exact Rr).
     destruct c; cbn [map_step spec_step] in *.
     - (* *expire *)
       destruct (negb (key_ok key)); [split; [reflexivity|exact Keep]|]. destruct t.
@@ -301,7 +306,7 @@ Section Seq.
       + destruct (LZ key) as [R1 S1]. apply ZW; [|exact Rn].
         apply (xexpire_ref live_z forget_z compact (RepZ compact clock) (RepZ compact ts) simz); auto.
       + destruct (LLs key) as [R1 S1]. apply LW; [|exact Rn].
-        apply (xexpire_ref l_exists forget_l compact (fun l => RepL compact clock l /\ LB bnd l) (RepL compact ts) (fun l a => abs_l l = a)); auto.
+        apply (xexpire_ref l_exists forget_l compact (fun l => (RepL compact clock l /\ InSpace l) /\ LB bnd l) (fun l => RepL compact ts l /\ InSpace l) (fun l a => abs_l l = a)); auto.
     - (* *persist *)
       destruct (negb (key_ok key)); [split; [reflexivity|exact Keep]|]. destruct t.
       + destruct (LH key) as [R1 S1]. apply HW; [|exact Rn].
@@ -311,7 +316,7 @@ Section Seq.
       + destruct (LZ key) as [R1 S1]. apply ZW; [|exact Rn].
         apply (xpersist_ref live_z forget_z compact (RepZ compact clock) (RepZ compact ts) simz); auto.
       + destruct (LLs key) as [R1 S1]. apply LW; [|exact Rn].
-        apply (xpersist_ref l_exists forget_l compact (fun l => RepL compact clock l /\ LB bnd l) (RepL compact ts) (fun l a => abs_l l = a)); auto.
+        apply (xpersist_ref l_exists forget_l compact (fun l => (RepL compact clock l /\ InSpace l) /\ LB bnd l) (fun l => RepL compact ts l /\ InSpace l) (fun l a => abs_l l = a)); auto.
     - (* *ttl *)
       destruct (negb (key_ok key)); [split; [reflexivity|exact Keep]|]. cbn [fst snd]. split; [|exact Keep]. f_equal. destruct t.
       + destruct (LH key) as [R1 S1].
@@ -321,7 +326,7 @@ Section Seq.
       + destruct (LZ key) as [R1 S1].
         apply (xttl_ref live_z forget_z compact (RepZ compact clock) (RepZ compact ts) simz); auto.
       + destruct (LLs key) as [R1 S1].
-        apply (xttl_ref l_exists forget_l compact (fun l => RepL compact clock l /\ LB bnd l) (RepL compact ts) (fun l a => abs_l l = a)); auto.
+        apply (xttl_ref l_exists forget_l compact (fun l => (RepL compact clock l /\ InSpace l) /\ LB bnd l) (fun l => RepL compact ts l /\ InSpace l) (fun l a => abs_l l = a)); auto.
     - split; [reflexivity|exact Keep].
     - (* hset *) destruct (LH key) as [R1 S1]. apply HW; [|exact Rn].
       apply (xrenew_ref exists_coll forget_c compact (RepC compact clock) (RepC compact ts) (@sim bytes)); auto.
@@ -423,14 +428,14 @@ Section Seq.
       destruct (LLs key) as [R1 S1]. apply LW; [|exact Rn].
       pose proof (lstep_fref clock ts key c bnd L PB Room) as F.
       destruct (l_renews c) eqn:LR.
-      + apply (xrenew_ref l_exists forget_l compact (fun l => RepL compact clock l /\ LB bnd l) (RepL compact ts) (fun l a => abs_l l = a)); auto.
-      + destruct (F empty_lcoll [] (conj (RepL_empty compact clock) (LB_empty bnd)) eq_refl) as (E0 & _).
+      + apply (xrenew_ref l_exists forget_l compact (fun l => (RepL compact clock l /\ InSpace l) /\ LB bnd l) (fun l => RepL compact ts l /\ InSpace l) (fun l a => abs_l l = a)); auto.
+      + destruct (F empty_lcoll [] (conj (conj (RepL_empty compact clock) InSpace_empty) (LB_empty bnd)) eq_refl) as (E0 & _).
         replace (snd (MapL.lstep compact ts key c empty_lcoll)) with (snd (SpecL.lstep key c [])) by (symmetry; exact E0).
-        apply (xguard_ref l_exists compact (fun l => RepL compact clock l /\ LB bnd l) (RepL compact ts) (fun l a => abs_l l = a)); auto.
+        apply (xguard_ref l_exists compact (fun l => (RepL compact clock l /\ InSpace l) /\ LB bnd l) (fun l => RepL compact ts l /\ InSpace l) (fun l a => abs_l l = a)); auto.
         apply lguard_nil; exact LR.
     - (* list read *)
       destruct (LLs key) as [R1 S1].
-      destruct (xview_ref forget_l compact (fun l => RepL compact clock l /\ LB bnd l) (fun l a => abs_l l = a) Fl SFl now _ _ R1 S1) as [[RL _] AB].
+      destruct (xview_ref forget_l compact (fun l => (RepL compact clock l /\ InSpace l) /\ LB bnd l) (fun l a => abs_l l = a) Fl SFl now _ _ R1 S1) as [[[RL _] _] AB].
       cbn [fst snd]. split; [|exact Keep]. rewrite <- AB.
       destruct (list_reads_ref compact clock key _ RL) as (a1 & a2 & a3).
       destruct q; [exact a1|exact a2|apply (lrange_ref compact clock); exact RL|apply a3|reflexivity].
@@ -505,7 +510,7 @@ Proof.
   rewrite (rel2_count _ (fun x => live_z (x_r x)) (fun x : xr szset => nonempty (x_r x)) t _ _ Sz).
   2:{ intros k a b Hin [_ S]. apply (live_z_sim compact clock); [apply (rs_zset _ _ _ Rs k a Hin)|exact S]. }
   rewrite (rel2_count _ (fun x => l_exists (x_r x)) (fun x : xr slist => nonempty (x_r x)) t _ _ Sl).
-  2:{ intros k a b Hin [_ S]. apply (live_l_abs compact clock); [apply (rs_list _ _ _ Rs k a Hin)|exact S]. }
+  2:{ intros k a b Hin [_ S]. apply (live_l_abs compact clock); [apply (proj1 (rs_list _ _ _ Rs k a Hin))|exact S]. }
   reflexivity.
 Qed.
 
